@@ -209,6 +209,11 @@ def run(prog: Program, chk: Check):
                     if key_ not in canon_cache:
                         canon_cache[key_] = _Canon(mapping).visit(ast.parse(norm(guards.subst(e, lcm_)), mode="eval").body)
                     ce_ = canon_cache[key_]
+                    # symmetric comparisons are written operand-sorted (`ctypes.c_byte is t._type_` == `t._type_ is ctypes.c_byte`)
+                    core_ = ce_.operand if isinstance(ce_, ast.UnaryOp) and isinstance(ce_.op, ast.Not) else ce_
+                    if isinstance(core_, ast.Compare) and len(core_.ops) == 1 and isinstance(core_.ops[0], (ast.Is, ast.IsNot, ast.Eq, ast.NotEq)) \
+                            and norm(core_.left) > norm(core_.comparators[0]):
+                        core_.left, core_.comparators[0] = core_.comparators[0], core_.left
                     while isinstance(ce_, ast.UnaryOp) and isinstance(ce_.op, ast.Not):
                         ce_, pol = ce_.operand, not pol
                     names = {x.id for x in ast.walk(ce_) if isinstance(x, ast.Name)}
